@@ -126,6 +126,7 @@ def run(ctx):
         ctx.count("oracle_evaluated")
     for (c, res, ml, il) in results[:3]:
         ctx.sample({"case": list(c), "impl": il.split(" | ")[0], "expected": expected(c)})
+    EC.shared_component_stage(ctx, lambda ctx, case, res, base, w: oracle_case(ctx, case, res))
     EC.wholerun_stage(ctx, 2, 12, wholerun_record)
 
 
